@@ -160,6 +160,8 @@ class Lab:
 
     def quic(self):
         if not hasattr(self, "_quic"):
+            import logging
+            logging.getLogger("quic").setLevel(logging.CRITICAL)     # refusals are logged as warnings
             from aioquic.quic.configuration import QuicConfiguration
             from aioquic.quic.connection import QuicConnection
             ccfg = QuicConfiguration(is_client=True, server_name="localhost")
@@ -500,7 +502,8 @@ def run_quic_case(lab, names):
              "post": client.tls.state.name,
              "code": -2 if crashed else (-1 if close is None else int(close.error_code)),
              "onertt": bool(client._cryptos[E.ONE_RTT].recv.is_valid()),
-             "accepted": [n for i, n in enumerate(names) if hashed[i]], "crashed": crashed}]
+             # handshake messages a client that is fed on accepts (post-handshake tickets left out)
+             "accepted": [n for i, n in enumerate(names) if hashed[i] and n != "NST"], "crashed": crashed}]
 
 
 # -------------------------------------------------------------- exploration
